@@ -14,7 +14,12 @@ import (
 	"github.com/ozontech/seq-db/frac/processor"
 	"github.com/ozontech/seq-db/fracmanager"
 	"github.com/ozontech/seq-db/parser"
+	pb "github.com/ozontech/seq-db/pkg/storeapi"
 	"github.com/ozontech/seq-db/seq"
+	realstore "github.com/ozontech/seq-db/storeapi"
+	"google.golang.org/grpc/codes"
+	"google.golang.org/grpc/status"
+	"google.golang.org/protobuf/proto"
 
 	"verif/harness/internal/fracbuild"
 	"verif/harness/internal/storectl"
@@ -56,6 +61,8 @@ type childReq struct {
 	Parallelism int        `json:"parallelism,omitempty"`
 	Spec        searchSpec `json:"spec"`
 	Wait        bool       `json:"wait,omitempty"`
+	LoadOnly    bool       `json:"load_only,omitempty"` // load the persisted requests, do not resume them
+	PBHex       string     `json:"pb,omitempty"`        // a protobuf message of the store API
 	TimeoutMs   int        `json:"timeout_ms,omitempty"`
 }
 
@@ -95,6 +102,7 @@ type childResp struct {
 	PerFrac []fracQPR `json:"per_frac,omitempty"`
 	Files   []string  `json:"files,omitempty"`
 	Names   []string  `json:"names,omitempty"`
+	PBHex   string    `json:"pb,omitempty"`
 }
 
 // exactUnits renders f*16 as an integer; values that are not a multiple of 1/16 (never produced by
@@ -279,6 +287,12 @@ func registerChildOps() {
 			return storectl.Resp{}, fmt.Errorf("store not open")
 		}
 		asyncDir, allFields = e.AsyncDir, e.Spec.Fields
+		if e.LoadOnly {
+			as, err := fracmanager.VerifC19LoadAsync(fracmanager.AsyncSearcherConfig{DataDir: e.AsyncDir, Parallelism: e.Parallelism},
+				mappingProvider{keywordMapping(e.Spec.Fields)}, c.FM)
+			asyncSearcher = as
+			return answer(childResp{}), err
+		}
 		asyncSearcher = fracmanager.MustStartAsync(fracmanager.AsyncSearcherConfig{DataDir: e.AsyncDir, Parallelism: e.Parallelism},
 			mappingProvider{keywordMapping(e.Spec.Fields)}, c.FM)
 		return answer(childResp{}), nil
@@ -293,6 +307,44 @@ func registerChildOps() {
 			return storectl.Resp{}, err
 		}
 		return answer(childResp{}), nil
+	})
+	// the real gRPC handlers of the store (storeapi/grpc_async_search.go) on the child's searcher
+	storectl.Register("c19.pbstart", func(c *storectl.Child, r storectl.Req) (storectl.Resp, error) {
+		e, err := decode(r)
+		if err != nil {
+			return storectl.Resp{}, err
+		}
+		b, err := hex.DecodeString(e.PBHex)
+		if err != nil {
+			return storectl.Resp{}, err
+		}
+		var req pb.StartAsyncSearchRequest
+		if err := proto.Unmarshal(b, &req); err != nil {
+			return storectl.Resp{}, err
+		}
+		if _, err := realstore.VerifC19AsyncAPI(asyncSearcher).StartAsyncSearch(context.Background(), &req); err != nil {
+			return storectl.Resp{}, err
+		}
+		return answer(childResp{}), nil
+	})
+	storectl.Register("c19.pbfetch", func(c *storectl.Child, r storectl.Req) (storectl.Resp, error) {
+		e, err := decode(r)
+		if err != nil {
+			return storectl.Resp{}, err
+		}
+		resp, err := realstore.VerifC19AsyncAPI(asyncSearcher).FetchAsyncSearchResult(context.Background(),
+			&pb.FetchAsyncSearchResultRequest{SearchId: e.Spec.ID})
+		if err != nil {
+			if status.Code(err) == codes.NotFound {
+				return answer(childResp{Found: false}), nil
+			}
+			return storectl.Resp{}, err
+		}
+		b, err := proto.Marshal(resp)
+		if err != nil {
+			return storectl.Resp{}, err
+		}
+		return answer(childResp{Found: true, Done: resp.Done, PBHex: hex.EncodeToString(b)}), nil
 	})
 	// fetch the result; with wait: poll until the request reports done
 	storectl.Register("c19.fetch", func(c *storectl.Child, r storectl.Req) (storectl.Resp, error) {
